@@ -466,7 +466,7 @@ def r18(ctx: Ctx):
             for t in x.targets:
               if isinstance(t, ast.Subscript) and isinstance(t.value, ast.Name) and t.value.id not in own:
                 bad = x
-          if isinstance(x, ast.Call) and isinstance(x.func, ast.Attribute) and x.func.attr in ('setdefault', 'append', 'add') and (
+          if isinstance(x, ast.Call) and isinstance(x.func, ast.Attribute) and x.func.attr in ('setdefault',) and (
               isinstance(x.func.value, ast.Name) and x.func.value.id not in own) and any(calls_param(a) for a in x.args):
             bad = x
         if any('cache' in unparse(d) for d in f_in.decorator_list) and any(
